@@ -331,7 +331,7 @@ def contagion_part(res, tier, seed):
     # (ii) larger hypergraphs, deterministic regimes and random rates
     nrand = 350 if tier == "quick" else 7000
     for i in range(nrand):
-        n = rng.choice([2, 3, 4, 4, 5, 5, 6, 6, 7, 8])
+        n = rng.choice([2, 3, 4, 4, 5, 5, 6, 6, 7, 7])
         es = set()
         for _ in range(rng.randint(0, n + 3)):
             z = rng.choice([1, 2, 2, 2, 3, 3, 3, 4])
@@ -346,7 +346,10 @@ def contagion_part(res, tier, seed):
         if i % 2 == 0:
             rates = tuple(rng.choice(det_vals[rng.choice("01")]) for _ in range(3))
         else:
-            rates = tuple(rng.choice([0, 1, round(rng.uniform(0.05, 0.95), 3), round(rng.uniform(0.05, 0.95), 3)]) for _ in range(3))
+            rates = [rng.choice([0, 1, round(rng.uniform(0.05, 0.95), 3), round(rng.uniform(0.05, 0.95), 3)]) for _ in range(3)]
+            if all(x in (0, 1) for x in rates):
+                rates[rng.randrange(3)] = round(rng.uniform(0.05, 0.95), 3)
+            rates = tuple(rates)
         plans.append((n, es, tuple(range(1, n + 1)), I0, T, rates))
     traces, descr, hooked_runs = [], [], 0
     for i, (n, es, extra, I0, T, rates) in enumerate(plans):
